@@ -124,6 +124,15 @@ func runVarstore(sc M) {
 				if db, derr := signature.ReadSignatureDatabase(bytes.NewReader(storeValue(val))); derr == nil {
 					m = &db
 				}
+				if signed && i%2 == 1 {
+					// the two-step way: produce the update, look at it, then write it
+					_, upd, err := signature.SignEFIVariable(v, m, key, cert)
+					if err != nil {
+						return err
+					}
+					_ = upd.Bytes()
+					return e.WriteVar(v, upd)
+				}
 				if signed {
 					return e.WriteSignedUpdate(v, m, key, cert)
 				}
